@@ -302,6 +302,9 @@ theorem clone_spec (tx : Tx) (h : tx.wf) (hamb : ¬ tx.ambiguous) :
     | nil => rfl
     | cons i is ih => simp [ih]
 
+theorem serOptScript_getD' (s : Option Bytes) : serOptScript s = varintEnc (optLen s) ++ s.getD [] :=
+  serOptScript_getD s
+
 /-- what Tx.Clone returns: the same transaction with nil unlocking scripts replaced by empty ones -/
 def cloneNorm (tx : Tx) : Tx :=
   { tx with inputs := tx.inputs.map fun i => { i with unlocking := some (i.unlocking.getD []) } }
